@@ -71,7 +71,7 @@ fn o20d_rc_kmer_involution() {
 }
 
 //@ obligation: O-20a
-//@ props: C20 C11 C18
+//@ props: C20 C11 C18 C10
 //@ kind: complete
 //@ functions: kmer::Kmer::insert kmer::Kmer::insert_canonical kmer::Kmer::data kmer::Kmer::data_canonical kmer::Kmer::is_dir_oriented kmer::canonical_kmer
 //@ claim: from any full state satisfying I(k), insert(sym) re-establishes I(k); data()==data_canonical()==min(dir,rc)==canonical_kmer(dir,k)==canonical_kmer(rc,k) (strand symmetry); is_dir_oriented() <=> dir <= rc
@@ -141,7 +141,7 @@ fn o20b_slide_equals_from_scratch() {
 }
 
 //@ obligation: O-20c
-//@ props: C20 C18
+//@ props: C20 C18 C10
 //@ kind: complete
 //@ functions: kmer::Kmer::insert kmer::Kmer::insert_canonical kmer::Kmer::is_full
 //@ claim: fill phase: from any state satisfying F(j), j<k, insert(sym) gives F(j+1) with symbol j == sym and symbols 0..j unchanged; is_full() <=> j+1==k. F(0) is Kmer::new()
@@ -209,5 +209,27 @@ fn o20f_base_complement_table() {
         kani::assert(reverse_complement(r) == b, "O-20f: involution on ACGT");
     } else {
         kani::assert(r == 4, "O-20f: non-ACGT maps to 4");
+    }
+}
+
+//@ obligation: O-20g
+//@ props: C20 C10
+//@ kind: complete
+//@ functions: kmer::Kmer::data kmer::Kmer::is_full
+//@ claim: in every state satisfying I(k) the canonical value data() is never u64::MAX (so it can never be confused with the MISSING k-mer sentinel); is_full() <=> cur_size == max_size. Discharges the Kmer::data / is_full contracts assumed by Verus obligation O-10
+#[kani::proof]
+#[kani::unwind(34)]
+fn o20g_canonical_never_missing_sentinel() {
+    let k = any_k();
+    let dir: u64 = kani::any();
+    kani::assume(low_bits_zero(dir, k));
+    let rc = reverse_complement_kmer(dir, k);
+    let cur: u32 = kani::any();
+    kani::assume(cur <= k);
+    let km = Kmer::from_values(dir, rc, k, cur, KmerMode::Canonical);
+    kani::assert(km.is_full() == (cur == k), "O-20g: is_full() is cur_size == max_size");
+    if cur == k {
+        kani::cover!(k == 32 && dir == u64::MAX, "all-T 32-mer reachable");
+        kani::assert(km.data() != u64::MAX, "O-20g: canonical k-mer value is never the MISSING sentinel");
     }
 }
